@@ -122,7 +122,7 @@ func normKey(s string) string {
 
 // stressName draws a name from the pool that is not used yet in scope `used`
 // (exact IDL spelling); it falls back to a counter name.
-var helperNames = map[string]bool{"Client_": true, "_unknownFields": true, "BLength": true, "FastRead": true, "_foo": true}
+var helperNames = map[string]bool{"Client_": true, "_unknownFields": true, "BLength": true, "FastRead": true, "_foo": true, "_a": true}
 
 func (g *gen) stressName(pool []string, used map[string]bool, fallbackPrefix string) string {
 	if g.cfg.NameStress && g.p(2, 3, "stressname") {
